@@ -835,7 +835,9 @@ def divmod_vids(st, x, c):
         q = r = None
         cv = const_vid(c)
         tx = TERM.get(x)
-        if tx is not None and tx[0] == 'Neg':
+        _gx0 = GRANGE.get(x)
+        _direct = x in AFF and _gx0 is not None and _gx0[0] >= 0      # a negation that is itself non-negative everywhere: split its own form
+        if tx is not None and tx[0] == 'Neg' and not _direct:
             # truncating division is odd: (-y)/c = -(y/c), (-y)%c = -(y%c)
             qy, ry = divmod_vids(st, tx[1], c)
             q = new_vid(); r = new_vid()
@@ -876,6 +878,20 @@ def divmod_vids(st, x, c):
         for _k in set(GRANGE) - _before:      # (no memoisation side effect: the global ranges recorded so far stay as they were)
             del GRANGE[_k]
         trunc_ok = gx is not None and gx[0] >= 0
+        if q is None and x in AFF and not trunc_ok and gx is not None and gx[1] <= 0 and not (tx is not None and tx[0] == 'Neg'):
+            # a dividend that is non-positive in every state: truncating division is odd, (-z)/c = -(z/c), (-z)%c = -(z%c),
+            # with z = -x >= 0 handled by the rules for non-negative dividends
+            z = term_vid(st, ('Neg', x), -gx[1], -gx[0], aff_scale(aff_of(x), -1))
+            GRANGE.setdefault(z, (-gx[1], -gx[0]))
+            xl, xh = get_iv(st, x)
+            st.iv[z] = (max(-xh, get_iv(st, z)[0]), min(-xl, get_iv(st, z)[1]))
+            qz, rz = divmod_vids(st, z, c)
+            q = new_vid(); r = new_vid()
+            TERM[q] = ('Div', x, cv); TERM[r] = ('Rem', x, cv)
+            AFF[q] = aff_scale(aff_of(qz), -1)
+            AFF[r] = aff_scale(aff_of(rz), -1)
+            USERS.setdefault(qz, []).append(q)
+            USERS.setdefault(rz, []).append(r)
         if q is None and x in AFF and trunc_ok:
             sc = _split_scaled(st, aff_of(x), c)
             if sc is not None:
